@@ -286,6 +286,16 @@ func (s *Schema) control() (err error) {
 		return fmt.Errorf("%T %w: %s", s.object, ErrStructureChanged, err)
 	}
 
+	// controlling that every index is an index of a known field and is
+	// made of values of the type this field is indexed with
+	for fn, fi := range s.ObjectIndex.Fields {
+		if fd, ok := s.Fields[fn]; !ok {
+			return fmt.Errorf("%w: index on unknown field %s", ErrMalformedSchema, fn)
+		} else if cast, ok := fd.castable(); !ok || cast != fi.Cast {
+			return fmt.Errorf("%w: index of field %s (%s) is made of %s", ErrMalformedSchema, fn, fd.Type, fi.Cast)
+		}
+	}
+
 	// controlling index in memory
 	if err = s.ObjectIndex.control(); err != nil {
 		return
